@@ -17,8 +17,8 @@ MOD_BLOCKS = [
     ("f_builtin", "def f_builtin(a):\n    return a\n", "f_builtin = len\n"),
     ("f_class", "def f_class(a):\n    return a\n", "class f_class:\n    def __init__(self, a):\n        self.a = a\n"),
     ("f_argcls", "def f_argcls(a, b):\n    return b\n", None),
-    ("f_retcls", "def f_retcls(a):\n    return a\n", None),
-    ("f_yieldcls", "def f_yieldcls(a):\n    yield a\n", None),
+    ("f_retcls", "def f_retcls(a):\n    return a\n", "def f_retcls(a):\n    yield a\n"),             # became a generator
+    ("f_yieldcls", "def f_yieldcls(a):\n    yield a\n", "def f_yieldcls(a):\n    return [a]\n"),      # no longer a generator
     ("f_nontype", "def f_nontype(a):\n    return a\n", None),
     ("f_nested", "def f_nested(a):\n    return a\n", None),
     ("f_params", "def f_params(a, b):\n    return a\n", "def f_params(a, c):\n    return a\n"),
@@ -44,6 +44,8 @@ KINDS_BLOCKS = [
     ("C", "class C:\n    pass\n", ""),
     ("D", "class D:\n    pass\n", "D = 5\n"),
     ("E", "class E:\n    pass\n", "def E():\n    pass\n"),
+    ("S", "class S:\n    pass\n", "S = \"text\"\n"),
+    ("M", "class M:\n    pass\n", "import functools as M\n"),
     ("Outer.Inner", "class Outer:\n    class Inner:\n        pass\n", "class Outer:\n    pass\n"),
 ]
 MOD_HEADER = ("import functools\n\n\n"
@@ -103,71 +105,103 @@ def write_tree(root, muts):
             f.write(text)
 
 
-# ---- which mutation makes which pool row stale, and the MonkeyTypeError class expected then ---------
-# tag -> (mutation that makes it stale, expected class, stale kind of the property)
+# ---- which mutations make which pool row stale, and the MonkeyTypeError class expected then ---------
+# tag -> [(mutation, expected class, stale kind of the property), ...] in the order to_trace meets them (function,
+# arguments by sorted name, return, yield): the first ACTIVE one decides.  Mutations not listed for a tag (a renamed
+# parameter, a function that stopped / started being a generator) do not make the row decodable or undecodable.
+NLE, ITE = "NameLookupError", "InvalidTypeError"
+K_ARG, K_RET, K_YLD, K_NT = ("argument class removed", "return class removed", "yield class removed",
+                             "class name now bound to a non-type")
+F_REMOVED = ("f_removed", NLE, "function removed")
 STALE_BY = {
-    "removed": ("f_removed", "NameLookupError", "function removed"),
-    "nonfunc": ("f_nonfunc", "InvalidTypeError", "function replaced by a non-function"),
-    "none": ("f_none", "InvalidTypeError", "function replaced by a non-function"),
-    "partial": ("f_partial", "InvalidTypeError", "function replaced by a non-function"),
-    "cls": ("f_class", "InvalidTypeError", "function replaced by a class"),
-    "prop_set": ("K.prop_set", "InvalidTypeError", "function replaced by a settable property"),
-    "prop_del": ("K.prop_del", "InvalidTypeError", "function replaced by a settable property"),
-    "prop_nog": ("K.prop_nog", "InvalidTypeError", "function replaced by a property without getter"),
-    "m_removed": ("K.m_removed", "NameLookupError", "function removed"),
-    "kgone": ("KGone", "NameLookupError", "function removed"),
-    "argcls": ("A", "NameLookupError", "argument class removed"),
-    "argcls_nested": ("A", "NameLookupError", "argument class removed"),
-    "argcls_opt": ("A", "NameLookupError", "argument class removed"),
-    "argcls_two": ("A", "NameLookupError", "argument class removed"),
-    "td_stale": ("A", "NameLookupError", "argument class removed"),
-    "retcls": ("B", "NameLookupError", "return class removed"),
-    "retcls_nested": ("B", "NameLookupError", "return class removed"),
-    "yieldcls": ("C", "NameLookupError", "yield class removed"),
-    "nontype": ("D", "InvalidTypeError", "class name now bound to a non-type"),
-    "nontype_ret": ("D", "InvalidTypeError", "class name now bound to a non-type"),
-    "nontype_fn": ("E", "InvalidTypeError", "class name now bound to a non-type"),
-    "inner_cls": ("Outer.Inner", "NameLookupError", "argument class removed"),
-    "gonemod_cls": ("mod:gone", "NameLookupError", "argument class removed"),
-    "subcls": ("mod:sub", "NameLookupError", "return class removed"),
-    "gone_g": ("mod:gone", "NameLookupError", "module removed"),
-    "gone_g2": ("mod:gone", "NameLookupError", "module removed"),
-    "top_tf": ("mod:fxtop", "NameLookupError", "module removed"),
-    "top_tf2": ("mod:fxtop", "NameLookupError", "module removed"),
-    "topcls": ("mod:fxtop", "NameLookupError", "argument class removed"),
-    "leaf_f2": ("mod:sub", "NameLookupError", "submodule removed"),
-    "leaf_f": ("mod:sub", "NameLookupError", "submodule removed"),
-    "top": ("top", "NameLookupError", "function removed"),
+    "removed": [F_REMOVED],
+    "nonfunc": [("f_nonfunc", ITE, "function replaced by a non-function")],
+    "none": [("f_none", ITE, "function replaced by a non-function")],
+    "partial": [("f_partial", ITE, "function replaced by a non-function")],
+    "cls": [("f_class", ITE, "function replaced by a class")],
+    "prop_set": [("K.prop_set", ITE, "function replaced by a settable property")],
+    "prop_del": [("K.prop_del", ITE, "function replaced by a settable property")],
+    "prop_nog": [("K.prop_nog", ITE, "function replaced by a property without getter")],
+    "m_removed": [("K.m_removed", NLE, "function removed")],
+    "kgone": [("KGone", NLE, "function removed")],
+    "argcls": [("A", NLE, K_ARG)],
+    "argcls_nested": [("A", NLE, K_ARG)],
+    "argcls_opt": [("A", NLE, K_ARG)],
+    "argcls_two": [("A", NLE, K_ARG), ("D", ITE, K_NT)],
+    "td_stale": [("A", NLE, K_ARG)],
+    "retcls": [("B", NLE, K_RET)],
+    "retcls_nested": [("B", NLE, K_RET)],
+    "yieldcls": [("C", NLE, K_YLD)],
+    "yieldcls_list": [("C", NLE, K_YLD)],
+    "nontype": [("D", ITE, K_NT)],
+    "nontype_ret": [("D", ITE, K_NT)],
+    "nontype_fn": [("E", ITE, K_NT)],
+    "inner_cls": [("Outer.Inner", NLE, K_ARG)],
+    "gonemod_cls": [("mod:gone", NLE, K_ARG)],
+    "subcls": [("mod:sub", NLE, K_RET)],
+    "gone_g": [("mod:gone", NLE, "module removed")],
+    "gone_g2": [("mod:gone", NLE, "module removed")],
+    "top_tf": [("mod:fxtop", NLE, "module removed")],
+    "top_tf2": [("mod:fxtop", NLE, "module removed")],
+    "topcls": [("mod:fxtop", NLE, K_ARG)],
+    "leaf_f2": [("mod:sub", NLE, "submodule removed")],
+    "leaf_f": [("mod:sub", NLE, "submodule removed")],
+    "top": [("top", NLE, "function removed")],
+    # a name now bound to a non-type (function, int, str, module) nested inside generics
+    "nt_opt_fn": [("E", ITE, K_NT)],
+    "nt_list_str": [("S", ITE, K_NT)],
+    "nt_dict_mod": [("M", ITE, K_NT)],
+    "nt_opt_int": [("D", ITE, K_NT)],
+    "nt_str": [("S", ITE, K_NT)],
+    "nt_mod_ret": [("M", ITE, K_NT)],
+    "nt_yield_list": [("E", ITE, K_NT)],
+    # two stale facts in one row
+    "params_argcls": [("A", NLE, K_ARG)],            # + the parameter it was recorded for is gone (f_params)
+    "params_nontype": [("D", ITE, K_NT)],
+    "params_nested": [("A", NLE, K_ARG)],
+    "yield_ret": [("B", NLE, K_RET), ("C", NLE, K_YLD)],   # + the function is no longer a generator (f_yieldcls)
+    "removed_argcls": [F_REMOVED, ("A", NLE, K_ARG)],
+    "cls_nontype": [("f_class", ITE, "function replaced by a class"), ("D", ITE, K_NT)],
+    "arg_ret": [("A", NLE, K_ARG), ("B", NLE, K_RET)],
+    "propset_ret": [("K.prop_set", ITE, "function replaced by a settable property"), ("B", NLE, K_RET)],
+    "nonfunc_yield": [("f_nonfunc", ITE, "function replaced by a non-function"), ("C", NLE, K_YLD)],
+    "gonemod_nontype": [("mod:gone", NLE, K_ARG), ("D", ITE, K_NT)],
 }
-ALWAYS_STALE = {"local": ("NameLookupError", "function defined in a local scope")}
+DOUBLE_TAGS = ["params_argcls", "params_nontype", "params_nested", "yield_ret", "yieldcls", "yieldcls_list", "retcls",
+               "arg_ret", "gonemod_nontype", "argcls_two", "nt_opt_fn", "nt_list_str", "nt_dict_mod", "nt_opt_int",
+               "nt_yield_list", "nt_mod_ret"]
+ALWAYS_STALE = {"local": (NLE, "function defined in a local scope")}
 # decodes, but one traced parameter name no longer exists
 PARAMS_TAG = ("params", "f_params", "parameter names that no longer exist")
 VALID_TAGS = ["ok_a", "ok_b", "ok2", "gen", "wrapped", "meth", "cm", "sm", "prop", "td"]
+# every mutation of the classes / modules that rows mention, plus the ones that only change a function's shape
+TYPE_MUTS = ["A", "B", "C", "D", "E", "S", "M", "Outer.Inner", "mod:gone", "mod:sub", "mod:fxtop",
+             "f_params", "f_yieldcls", "f_retcls"]
+
+
+def _first_active(tag, muts):
+    for mut, cls, kind in STALE_BY.get(tag, []):
+        if mut in muts:
+            return cls, kind
+    return None
 
 
 def expected(tag, muts):
-    """'ok' | MonkeyTypeError class name | None (outside the property)"""
+    """'ok' | MonkeyTypeError class name | None (outside the property) -- known BY CONSTRUCTION of the fixture"""
     if tag in ALWAYS_STALE:
         return ALWAYS_STALE[tag][0]
     if tag == "broken_f":
         return None if "broken" in muts else "ok"
-    if tag in STALE_BY:
-        mut, cls, _ = STALE_BY[tag]
-        if mut in muts:
-            return cls
-        # argcls_two names A and D; D alone gives InvalidTypeError
-        if tag == "argcls_two" and "D" in muts:
-            return "InvalidTypeError"
-    return "ok"
+    hit = _first_active(tag, muts)
+    return hit[0] if hit else "ok"
 
 
 def kind_of(tag, muts):
     if tag in ALWAYS_STALE:
         return ALWAYS_STALE[tag][1]
-    if tag in STALE_BY and expected(tag, muts) != "ok":
-        if tag == "argcls_two" and "A" not in muts:
-            return "class name now bound to a non-type"
-        return STALE_BY[tag][2]
+    hit = _first_active(tag, muts)
+    if hit:
+        return hit[1]
     if tag == "params" and "f_params" in muts:
         return PARAMS_TAG[2]
     return "valid"
